@@ -105,3 +105,57 @@ func ruleN6(p *Prog, r *Report) {
 	}
 	r.Floor(R, "evolving handle fields", 4, n)
 }
+
+// N7 a map handle built for an existing map hashes like the map was built (C12, C02).
+//
+// Which digest a key gets is decided by the DigesterBuilder the map was created with
+// (plus the persisted seed). Every function that builds an OrderedMap handle must take
+// the builder from its caller or from the handle it derives from; a handle built with a
+// fresh default builder hashes keys of a map that was created with another builder to
+// digests the map does not contain (finding F11: the handles handed out by a parent).
+func ruleN7(p *Prog, r *Report) {
+	const R = "N7"
+	n := 0
+	for _, f := range p.TopFuncs() {
+		if p.IsTestFile(f.Pos()) || isDiagnosticFile(p.Fset.Position(f.Pos()).Filename) {
+			continue
+		}
+		eachInstr(f, func(in ssa.Instruction) {
+			al, ok := in.(*ssa.Alloc)
+			if !ok {
+				return
+			}
+			nt := rootNamed(al.Type())
+			if nt == nil || nt.Obj().Name() != "OrderedMap" || nt.Obj().Pkg() == nil || nt.Obj().Pkg().Path() != rootPkgPath {
+				return
+			}
+			v := litField(f, al, "digesterBuilder")
+			if v == nil {
+				return
+			}
+			n++
+			cons := "handle-builder:" + p.Name(f)
+			// provenance: a parameter, or a field / accessor of another handle; not a call that makes a new builder
+			src := canon(v)
+			good, why := false, ""
+			switch x := src.(type) {
+			case *ssa.Parameter:
+				good = true
+			case *ssa.Call:
+				if g := x.Call.StaticCallee(); g != nil && strings.HasPrefix(g.Name(), "New") {
+					why = "a builder freshly made by " + g.Name() + "()"
+				} else {
+					good = true
+				}
+			case *ssa.MakeInterface:
+				why = "a builder constructed on the spot"
+			default:
+				good = true // loaded from another handle / variable
+			}
+			r.Decide(good, R, cons, p.InstrPos(in),
+				"the handle hashes with the builder its caller supplied or the one of the handle it derives from",
+				"a handle for an existing map is built with "+why+": a nested map that was created with another DigesterBuilder gets, through the handle its parent hands out, digests it does not contain - present keys are reported as not found and inserts go to the wrong place")
+		})
+	}
+	r.Floor(R, "OrderedMap handles built", 4, n)
+}
